@@ -36,23 +36,23 @@ type mIter struct {
 }
 
 type mState struct {
-	flags   map[string]tri
-	tens    map[string]string // tensor variable -> buffer symbol ("" = nil)
-	hdr     map[string]string // header variable -> buffer symbol
-	iters   map[string]*mIter
-	term    map[string]string // buffer symbol -> term
-	layout  map[string]string // buffer symbol -> symbol whose layout (iterator) it shares
-	fresh   map[string]bool
-	scratch map[string]bool // scalar headers
-	written map[string]bool
-	ret     string
-	hasRet  bool
-	nfresh  int
-	issues  []string
-	undec   []string
-	done    bool
-	scalarS string // symbol of the scalar operand ("" if none)
-	trace   []string
+	flags    map[string]tri
+	tens     map[string]string // tensor variable -> buffer symbol ("" = nil)
+	hdr      map[string]string // header variable -> buffer symbol
+	iters    map[string]*mIter
+	term     map[string]string // buffer symbol -> term
+	layout   map[string]string // buffer symbol -> symbol whose layout (iterator) it shares
+	fresh    map[string]bool
+	scratch  map[string]bool // scalar headers
+	written  map[string]bool
+	ret      string
+	hasRet   bool
+	nfresh   int
+	issues   []string
+	undec    []string
+	done     bool
+	scalarS  string // symbol of the scalar operand ("" if none)
+	trace    []string
 	pooled   map[string]int // scratch header symbol -> times handed to returnHeader
 	deferred [][]ast.Stmt   // bodies of deferred closures, run at return (LIFO)
 }
